@@ -8,7 +8,7 @@ package document
 // made only of objects allocated by the call, and writes nothing that existed before.
 
 //@ func (*TemplateEngine).cloneParagraphProperties
-//@ props C18, C17
+//@ props C18, C17, C09
 //@ modifies nothing
 //@ ensures deepcopy(result, source)
 //@ loop 1
@@ -23,30 +23,31 @@ package document
 //@ ensures deepcopy(result, source)
 
 //@ func (*TemplateEngine).cloneRunProperties
-//@ props C18, C17
+//@ props C18, C17, C09
 //@ modifies nothing
 //@ ensures deepcopy(result, source)
 //@ ensures result == nil || fresh(result)
 
 //@ func (*TemplateEngine).cloneTableProperties
-//@ props C18, C17
+//@ props C18, C17, C09
 //@ modifies nothing
 //@ ensures deepcopy(result, source)
 
 //@ func (*TemplateEngine).cloneTableBorders
-//@ props C18, C17
+//@ props C18, C17, C09
 //@ modifies nothing
 //@ ensures deepcopy(result, source)
 
 //@ func (*TemplateEngine).cloneTableCellMargins
-//@ props C18, C17
+//@ props C18, C17, C09
 //@ modifies nothing
 //@ ensures deepcopy(result, source)
 
 //@ func (*TemplateEngine).cloneTableGrid
-//@ props C18, C17
+//@ props C18, C17, C09
 //@ modifies nothing
 //@ ensures deepcopy(result, source)
+//@ ensures source != nil ==> fresh(result) && len(result.Cols) == len(source.Cols) && (len(result.Cols) == 0 || arr(result.Cols) >= old(allocBound()))   // C09: the copy's column list is an array of its own
 //@ loop 1
 //@   invariant 0 <= #i && #i <= len(source.Cols) && unchangedHeap() && source != nil
 //@   invariant grid != nil && fresh(grid) && len(grid.Cols) == len(source.Cols) && (len(grid.Cols) == 0 || arr(grid.Cols) >= old(allocBound()))
@@ -54,22 +55,22 @@ package document
 //@   decreases len(source.Cols) - #i
 
 //@ func (*TemplateEngine).cloneTableCellMarginsCell
-//@ props C18, C17
+//@ props C18, C17, C09
 //@ modifies nothing
 //@ ensures deepcopy(result, source)
 
 //@ func (*TemplateEngine).cloneTableCellBorders
-//@ props C18, C17
+//@ props C18, C17, C09
 //@ modifies nothing
 //@ ensures deepcopy(result, source)
 
 //@ func (*TemplateEngine).cloneTableRowProperties
-//@ props C18, C17
+//@ props C18, C17, C09
 //@ modifies nothing
 //@ ensures deepcopy(result, source)
 
 //@ func (*TemplateEngine).cloneTableCellProperties
-//@ props C18, C17
+//@ props C18, C17, C09
 //@ modifies nothing
 //@ ensures deepcopy(result, source)
 
@@ -77,7 +78,7 @@ package document
 //@ spec refsNonNil(s *SectionProperties) bool = (forall i int :: 0 <= i && i < len(s.HeaderReferences) ==> s.HeaderReferences[i] != nil) && (forall j int :: 0 <= j && j < len(s.FooterReferences) ==> s.FooterReferences[j] != nil)
 
 //@ func (*TemplateEngine).cloneSectionProperties
-//@ props C18, C17, C11
+//@ props C18, C17, C11, C09
 //@ wf cell:*HeaderFooterReference, cell:*FooterReference
 //@ requires source == nil || refsNonNil(source)
 //@ modifies nothing
@@ -100,7 +101,7 @@ package document
 //@ deepcopy-shares Run.Drawing : cloneRun copies the *DrawingElement pointer; the picture object tree is shared with the template (known finding C17)
 
 //@ func (*TemplateEngine).cloneRun
-//@ props C18, C17
+//@ props C18, C17, C09
 //@ requires source != nil
 //@ modifies nothing
 //@ ensures deepcopy(result, source)
